@@ -124,6 +124,17 @@ func c15Run(p c15Plan) *common.Fail {
 		if srv == nil {
 			srv = &knxnet.UnknownService{Data: append([]byte{}, p.Frame.Raw...)}
 		}
+		if sr, ok := srv.(*knxnet.SearchRes); ok {
+			// a search response value that holds kept blocks (a description block taken over from a description
+			// response): whether the encoder writes them or not, Size() is what Pack writes
+			for i, ty := range p.EmptyBlocks {
+				blk := knxnet.UnknownDescriptionBlock{Type: knxnet.DescriptionType(ty)}
+				if i%2 == 0 {
+					blk.Data = []byte{byte(i), 0xb2, 0xb3}
+				}
+				sr.DescriptionB.UnknownBlocks = append(sr.DescriptionB.UnknownBlocks, blk)
+			}
+		}
 		if dr, ok := srv.(*knxnet.DescriptionRes); ok {
 			for i, ty := range p.EmptyBlocks {
 				blk := knxnet.UnknownDescriptionBlock{Type: knxnet.DescriptionType(ty)}
@@ -298,7 +309,7 @@ func TestC15(t *testing.T) {
 				}
 				rec.Class("families-beyond-length-octet")
 			}
-			if p.Kind == "descrres" && rapid.IntRange(0, 2).Draw(rt, "empty-blocks") == 0 {
+			if (p.Kind == "descrres" || p.Kind == "searchres") && rapid.IntRange(0, 2).Draw(rt, "empty-blocks") == 0 {
 				for i := 0; i < rapid.IntRange(1, 4).Draw(rt, "n-empty-blocks"); i++ {
 					p.EmptyBlocks = append(p.EmptyBlocks, int(rapid.SampledFrom([]uint8{3, 4, 5, 0xfe, 6, 0, 0xff}).Draw(rt, "empty-block-type")))
 				}
